@@ -1,2 +1,69 @@
-//! harnesses mounted into the crate (see DESIGN.md 3.1)
+//! C17 (histogram part): `count == sum of buckets`, one sample lands in exactly the right bucket.
 #![allow(dead_code, unused_imports)]
+use super::*;
+use crate::verif_nd::{self as nd, harness, vassert, vcover};
+
+/// the first NB bounds of metrics::new_histogram_bound() (2, 4, 8, ...): `update` is generic in
+/// the number of bounds; 16 bounds time out (float loads through Atomic<f64> are not constant
+/// for CBMC), so the bounded claim is for NB bounds
+const NB: usize = 4;
+fn bounds() -> Vec<f64> {
+    (1..=NB as u64).map(|idx| (1u64 << idx) as f64).collect()
+}
+
+harness! {
+    [kani::unwind(7)]
+    fn c17_histogram_update() {
+        let h = Histogram::new(bounds());
+        vassert!(h.count_per_bucket.len() == NB + 1, "n bounds give n+1 buckets");
+        // arbitrary state with count == sum of buckets (three buckets arbitrary, the rest zero)
+        let i0 = nd::any_usize_in(0, NB);
+        let i1 = nd::any_usize_in(0, NB);
+        let c0 = nd::any_i64_in(0, 1 << 40);
+        let c1 = nd::any_i64_in(0, 1 << 40);
+        h.count_per_bucket[i0].fetch_add(c0, Ordering::SeqCst);
+        h.count_per_bucket[i1].fetch_add(c1, Ordering::SeqCst);
+        h.count.store(c0 + c1, Ordering::SeqCst);
+        let s0 = nd::any_i64_in(0, 1 << 50);
+        h.sum.store(s0, Ordering::SeqCst);
+        let v = nd::any_i64_in(0, 1 << 40);
+        // expected bucket: first bound strictly greater than v, else the overflow bucket
+        let mut exp = NB;
+        let mut i = 0;
+        while i < NB {
+            if v < (1i64 << (i + 1)) {
+                exp = i;
+                break;
+            }
+            i += 1;
+        }
+        let mut before = [0i64; NB + 1];
+        let mut j = 0;
+        while j < NB + 1 {
+            before[j] = h.count_per_bucket[j].load(Ordering::SeqCst);
+            j += 1;
+        }
+        h.update(v);
+        vassert!(h.count.load(Ordering::SeqCst) == c0 + c1 + 1, "one sample raises the count by one");
+        vassert!(h.sum.load(Ordering::SeqCst) == s0 + v, "the sample is added to the sum");
+        let mut total = 0i64;
+        let mut j = 0;
+        while j < NB + 1 {
+            let now = h.count_per_bucket[j].load(Ordering::SeqCst);
+            vassert!(now == before[j] + if j == exp { 1 } else { 0 }, "exactly the right bucket is incremented");
+            total += now;
+            j += 1;
+        }
+        vassert!(total == h.count.load(Ordering::SeqCst), "histogram count equals the sum of its buckets");
+        vcover!(exp == NB, "overflow bucket");
+        vcover!(exp == 0, "first bucket");
+        vcover!(v == 15, "just below the last bound");
+        h.clear();
+        let mut j = 0;
+        while j < NB + 1 {
+            vassert!(h.count_per_bucket[j].load(Ordering::SeqCst) == 0, "clear zeroes every bucket");
+            j += 1;
+        }
+        vassert!(h.count.load(Ordering::SeqCst) == 0, "clear zeroes the count");
+    }
+}
